@@ -23,7 +23,7 @@ RULE = ('seeded schedules as in C09 with the trajectory sampling in place of the
         ' Round 5: nominal and computed trajectory with the same stamps under different index names; measurement rows not in time order; sensors listed in any order.')
 ASSUMPTIONS = ['termination is decided as bounded progress: while-header visits <= 2 (rows + epochs in span) + 4, never by wall clock',
                'stamping of innovation rows with the sample time is not demanded by C10 (the filter stamps them with the row time)']
-REQUIRED_OBS = ['reruns_with_same_objects', 'schedules_with_permuted_tables', 'schedules_with_tiny_record', 'trajectories_with_different_index_names', 'schedules_with_unsorted_measurement_rows', 'schedules_with_independent_triad_models', 'runs_completed', 'loop_iterations', 'hit_events', 'correct_events', 'schedules_with_clusters', 'schedules_with_gaps',
+REQUIRED_OBS = ['prelude_runs_on_a_shorter_span', 'reruns_with_same_objects', 'schedules_with_permuted_tables', 'schedules_with_tiny_record', 'trajectories_with_different_index_names', 'schedules_with_unsorted_measurement_rows', 'schedules_with_independent_triad_models', 'runs_completed', 'loop_iterations', 'hit_events', 'correct_events', 'schedules_with_clusters', 'schedules_with_gaps',
                 'schedules_without_measurements', 'time_step_below_sampling', 'time_step_equal_sampling', 'with_increments',
                 'offline_checks']
 REQUIRED_CLASSES = {'all': ['uniform', 'jitter', 'gaps']}
@@ -104,6 +104,20 @@ def run_case(case):
     with_increments = bool(rng.integers(0, 2)) or S['model_kind'] == 'full' and rng.random() < 0.7
     d = dict(d, with_increments=with_increments)
     obs = {}
+    # what the samples ARE is fixed before anything runs (a filter that trims the caller's tables must not also trim the expectation)
+    import copy
+    frozen = []
+    for m_ in S['sensors']:
+        f_ = copy.copy(m_)
+        f_.data = m_.data.copy()
+        frozen.append(f_)
+    if case['seed'] % 3 == 2 and len(S['traj']) >= 12:
+        # Round 6: "a quick look at the first part, then the whole log" with the SAME measurement objects: the first call sees a shorter span
+        k_ = int(len(S['traj']) * float(rng.uniform(0.25, 0.6)))
+        S0 = dict(S, traj=S['traj'].iloc[:k_], increments=S['increments'].iloc[:max(k_ - 1, 1)] if S.get('increments') is not None else None,
+                  describe=dict(S['describe']), times=S['times'][:k_], _prefix=k_)
+        run_filter(S0, loop, with_increments)
+        obs['prelude_runs_on_a_shorter_span'] = 1
     r, ev, err = run_filter(S, loop, with_increments)
     out = []
     if err is not None:
@@ -128,7 +142,7 @@ def run_case(case):
     if r is not None:
         obs['runs_completed'] = 1
         obs['offline_checks'] = 1
-        out.extend(seqmodels.check_feedforward(ev, r, S['times'], S['sensors'], S['time_step'], loop))
+        out.extend(seqmodels.check_feedforward(ev, r, S['times'], frozen, S['time_step'], loop))
         if case['seed'] % 3 == 0 and not out:
             # the same measurement and model objects handed to the filter again (a parameter study on one data set): the second run must
             # consume every sample exactly once too (a cursor / memo kept inside the objects only shows on the second run)
@@ -138,7 +152,7 @@ def run_case(case):
                 out.append(dict(err2, message='[second run with the same objects] ' + err2['message']))
             else:
                 out.extend(dict(v, message='[second run with the same objects] ' + v['message'])
-                           for v in seqmodels.check_feedforward(ev2, r2, S['times'], S['sensors'], S['time_step'], loop))
+                           for v in seqmodels.check_feedforward(ev2, r2, S['times'], frozen, S['time_step'], loop))
                 if not np.array_equal(r['trajectory'].values, r2['trajectory'].values) or not np.array_equal(r['trajectory_sd'].values, r2['trajectory_sd'].values):
                     out.append(vio('rerun_differs', 'a second run with the same measurement / model objects returns a different trajectory or sd table'))
     # interleaving signature: how many measurement epochs fall into each sampling interval (run-length coded), the relation of the covariance
